@@ -65,6 +65,13 @@ inductive ResetStyle where
   | rollback | commit | none
 deriving DecidableEq, Repr, Inhabited
 
+/-- `handle_error` event listener installed on the engine -/
+inductive Listener where
+  | none          -- no listener (or one that changes nothing)
+  | forceDisc     -- sets `ctx.is_disconnect = True` for every DBAPI error
+  | noPoolInval   -- sets `ctx.invalidate_pool_on_disconnect = False`
+deriving DecidableEq, Repr, Inhabited
+
 /-! ## abstract database -/
 
 /-- one DBAPI connection -/
@@ -88,6 +95,7 @@ structure DB where
   nextRid : Nat
   faults : List (FPoint × FKind) -- armed one-shot faults, consumed at the next matching call
   reset : ResetStyle
+  listener : Listener
 deriving DecidableEq, Repr, Inhabited
 
 def Data.insert (d : Data) (k : Nat) : Option Data :=
@@ -214,9 +222,9 @@ structure Conn where
   db : DB
 deriving DecidableEq, Repr, Inhabited
 
-def DB.init (reset : ResetStyle) : DB :=
+def DB.init (reset : ResetStyle) (listener : Listener := .none) : DB :=
   { committed := [], raw := default, idle := [], clock := 0, invalTime := 0, nextRid := 0,
-    faults := [], reset := reset }
+    faults := [], reset := reset, listener := listener }
 
 /-- `engine.connect()` on a database/pool state -/
 def Conn.connect (db : DB) : Conn :=
@@ -334,20 +342,33 @@ def DB.apply (db : DB) : Sql → Option DB × Res
     | some r => (some { db with raw := r }, .ok)
     | none => (none, .operational)
 
+/-- `_handle_dbapi_exception` for a dbapi.Error whose (possibly listener-adjusted)
+    classification is "not a disconnect": nothing happens to the transaction state
+    ("autorollback" `_rollback_impl()` only when not in a transaction, which autobegin makes
+    unreachable from `execute`). -/
+def Conn.plainError (c : Conn) : Conn × Res :=
+  if c.inTransaction then (c, .operational)
+  else if c.hasDbapi then
+    match c.db.takeFault .rollback with
+    | (some _, db) => ({ c with db := db }, .operational)   -- reentrant error: raised as is
+    | (none, db) => ({ c with db := db.rollback }, .operational)
+  else (c, .operational)
+
 /-- `_handle_dbapi_exception` for a dbapi.Error:
-    disconnect → invalidate pool + connection; otherwise nothing happens to the
-    transaction state ("autorollback" `_rollback_impl()` only when not in a transaction,
-    which autobegin makes unreachable from `execute`). -/
+    `is_disconnect` = the dialect's classification, overridden by a `handle_error` listener;
+    disconnect → (unless the listener cleared `invalidate_pool_on_disconnect`) invalidate the
+    pool generation, then invalidate this connection. -/
+def Conn.discError (c : Conn) : Conn × Res :=
+  if c.db.listener == .noPoolInval then
+    (if c.invalidated then c else { c with hasDbapi := false, db := c.db.kill }, .disconnect)
+  else (c.onDisconnect, .disconnect)
+
 def Conn.dbapiError (c : Conn) (k : FKind) : Conn × Res :=
-  match k with
-  | .disc => (c.onDisconnect, .disconnect)
-  | .err =>
-    if c.inTransaction then (c, .operational)
-    else if c.hasDbapi then
-      match c.db.takeFault .rollback with
-      | (some _, db) => ({ c with db := db }, .operational)   -- reentrant error: raised as is
-      | (none, db) => ({ c with db := db.rollback }, .operational)
-    else (c, .operational)
+  if c.db.listener == .forceDisc then c.discError
+  else
+    match k with
+    | .disc => c.discError
+    | .err => c.plainError
 
 /-- a DBAPI call at fault point `p`: fails as armed, else `f` is applied to the database -/
 def Conn.dbapiCall (c : Conn) (p : FPoint) (f : DB → DB) : Conn × Res :=
@@ -367,7 +388,10 @@ def Conn.runSql (c : Conn) (q : Sql) : Conn × Res :=
   | (none, _) =>
     match c.db.apply q with
     | (some db, _) => ({ c with db := db }, .ok)
-    | (none, r) => ((c.dbapiError .err).1, r)
+    | (none, r) =>
+      -- the database rejected the statement (IntegrityError / OperationalError): same handler
+      let x := c.dbapiError .err
+      (x.1, if x.2 == .disconnect then .disconnect else r)
 
 /-- `_execute_context` after the execution context (cursor) exists -/
 def Conn.execChecked (c : Conn) (q : Sql) : Conn × Res :=
